@@ -239,6 +239,11 @@ def gen_h2_basic(tier: str, rng: random.Random) -> Iterator[Dict[str, Any]]:
                 ["send", {"type": "http.response.trailers", "headers": [["x-trailer", "t"]], "more": False}],
                 ["recv_disc"]]
         yield h2_script(steps, {"*": prog}, "h2/c02/trailers/%s" % te)
+        # ... followed by another request on the same connection (its header block must still decode)
+        steps2 = steps[:-1] + [{"s": "dt", "d": 0.01}, build.h2_headers(2, 3, "GET", toks=[["/after-trailers", "/after-trailers"]]),
+                               {"s": "dt", "d": 0.05}]
+        yield h2_script(steps2, {"1": prog, "2": build.simple_resp_program(chunks=[4], headers=[["x-b", "2"]])},
+                        "h2/c02/trailers-then-next/%s" % te)
 
 
 def _frame_hex(frame) -> str:
